@@ -177,7 +177,11 @@ func genCase(rng *rand.Rand, n int, seed int64, pf Profile) *CaseDesc {
 		var outs []int
 		cnt := min + rng.Intn(2)
 		for i := 0; i < cnt; i++ {
-			if chance(rng, pf.PDupOut) && len(avail) > 0 {
+			if useIface && chance(rng, 0.12) {
+				// a value handed on under an interface type (which other providers may also have asked for through a
+				// Loose match to a concrete type)
+				outs = append(outs, pick(rng, []int{cI0, cI1}))
+			} else if chance(rng, pf.PDupOut) && len(avail) > 0 {
 				outs = append(outs, pick(rng, avail))
 			} else {
 				outs = append(outs, pick(rng, pool))
@@ -332,7 +336,9 @@ func genCase(rng *rand.Rand, n int, seed int64, pf Profile) *CaseDesc {
 			p.Reorder = true
 		}
 		if p.Kind != "lit" && chance(rng, pf.PUnused) {
-			p.In = append(p.In, cUnus)
+			// anywhere among the parameters, not only last
+			pos := rng.Intn(len(p.In) + 1)
+			p.In = append(p.In[:pos:pos], append([]int{cUnus}, p.In[pos:]...)...)
 		}
 		c.Provs = append(c.Provs, p)
 	}
